@@ -5,7 +5,8 @@ buffering), initial destination / part file, the with-block (a script of write /
 on the file object, ending normally or by raising one of several exception kinds) and a *plan*
 (which instrumented call fails with which errno or with which non-OSError exception class, or
 before which call the destination appears), followed by an immediate fault-free retry (on a fresh
-saver, or on the SAME AtomicSaver instance).
+saver, or on the SAME AtomicSaver instance) - or by a HISTORY (round 3b): further saves through the same long-lived
+AtomicSaver object (or a second one, or fresh ones) while the world changes between the uses (`hist`).
 
 Tie = ACCEPTANCE (round 3): the calls the real code makes are recorded and classified by their EFFECT
 (create-part-exclusive, chmod of the part file by path or descriptor, write/flush/fsync/close,
@@ -366,6 +367,11 @@ class C05(Property):
             'call, fault pairs, buffering, instance reuse, special permission bits, the fcntl calls of set_cloexec as fault sites), '
             'then the full enumeration. Fault positions are the calls the CURRENT code makes, under whatever name (os.rename / os.replace, '
             'os.chmod / os.fchmod, os.unlink / os.remove, os.open+fdopen / open). '
+            'HISTORIES (round 3b): one long-lived AtomicSaver object (or two with different file_perms taking turns, or fresh ones in between) '
+            'used for 2-5 saves while the world changes between the uses - the destination chmod-ed / deleted / replaced by another '
+            "writer's file with another mode, the process umask changed, a foreign part file appearing / removed - x file_perms explicit / None x text / binary x "
+            'overwrite x first use completing / block raising / a call failing x every single fault position of a LATER save; each save is judged '
+            'with the state IT starts from (measured just before it). '
             'Non-trivial = the save did not complete (some call failed, the body raised, or it was refused); '
             'distinct = distinct (configuration, initial state, body, plan).')
     ASSUMPTIONS = ['faults are injected by replacing boltons.fileutils.os and wrapping the part file object: an injected '
@@ -374,14 +380,20 @@ class C05(Property):
                    '(ValueError, MemoryError, RuntimeError, an OSError without errno, ...); a BaseException that is not an '
                    'Exception is only used as the way the with-block ends',
                    'single process, no other writer in the scratch directory except the scripted "destination appears" action',
-                   'the recorded calls are classified by their effect on the destination / part file names by fsspy.Spy._event and '
-                   'c05.Spy5 (trusted Python); that no file-system call of the saver escapes the recorder is a proof obligation '
-                   'regenerated from the source (C05.source_calls_are_recorded)',
+                   'the recorder notes FACTS about every counted call (name, which of the two names its path arguments / descriptor / '
+                   'file object refer to, success, open flags, mode argument, bytes written: fsspy.Spy + c05.Spy5.raw_records, trusted Python); '
+                   'their CLASSIFICATION into observations is the Lean definition C05.classify - the Python classifier (fsspy.Spy._event, '
+                   'Spy5.observations) is checked against it on every call of every case (cls=ok); that no file-system call of the saver '
+                   'escapes the recorder is a proof obligation regenerated from the source (C05.source_calls_are_recorded)',
+                   'between two saves of a history the world moves only by the scripted steps (chmod / unlink / replacement of the destination, '
+                   'umask, a part file appearing / removed); WHILE a save of a history runs nothing else acts',
                    'the scratch directory is made on a memory-backed file system (/dev/shm) when one passes a probe '
                    '(hard links, rename, permission bits), else in the default temporary directory',
                    'POSIX branch of atomic_rename/replace (os.name != "nt")']
     CORRESPONDENCE_NAME = ('C05.Driver: C05.Accept (acceptance automaton + end conditions) on the trace observed on boltons.fileutils.atomic_save '
-                           'in a real scratch directory, and C05.replay of that trace on the abstract FS vs the real destination / part file')
+                           'in a real scratch directory (= C05.classify of the recorded raw facts), and C05.replay of that trace on the abstract FS '
+                           'vs the real destination / part file; for histories every save is judged from the state it starts in, the moves of the '
+                           'world between the saves are C05.EnvStep.apply')
 
     # ------------------------------------------------------------------ translator hook
     # mutating / process-state calls of the os module that the recorder (fsspy) does NOT interpose, and modules through
